@@ -158,7 +158,81 @@ func c17FlipCase(s string) string {
 	return s
 }
 
+// c17TwoClients: two clients of one process, built from configurations that lack a usable identity (Client() gives
+// both the same default nick), state tracking off. Each of them knows its own nick: what a server does to one of them
+// (collision answers, a welcome under another nick, a forced change) never shows in the other's Me().
+func c17TwoClients(c *Ctx) {
+	for idx := 0; idx < c.Pick(12, 120); idx++ {
+		if !c.Want("two", idx) {
+			continue
+		}
+		c.J.Log("CASE %s", Case("two", idx))
+		mk := func() (*Session, *rig.MemConn, bool) {
+			s := NewSession(SessionOpts{Flood: true, Mutate: func(cfg *client.Config) {
+				switch idx % 3 {
+				case 0:
+					cfg.Me = nil
+				case 1:
+					cfg.Me.Nick = ""
+				default:
+					cfg.Me.Ident = ""
+				}
+			}})
+			mc, err := s.Connect()
+			if err != nil || !AwaitRegistration(mc) {
+				return nil, nil, false
+			}
+			return s, mc, true
+		}
+		a, mca, ok1 := mk()
+		b, mcb, ok2 := mk()
+		if !ok1 || !ok2 {
+			c.R.Inconcl(fmt.Sprintf("%s: connect failed", Case("two", idx)))
+			return
+		}
+		viol := func(detail string) {
+			c.R.Violate(rig.Violation{Sig: "c17|two-clients-share-a-nick", Detail: detail, Case: Case("two", idx)})
+		}
+		nickOf := func(s *Session) string {
+			if me := s.Conn.Me(); me != nil {
+				return me.Nick
+			}
+			return "<nil>"
+		}
+		start := nickOf(a)
+		if nickOf(b) != start {
+			viol(fmt.Sprintf("two clients built from the same incomplete configuration start as %q and %q", start, nickOf(b)))
+		}
+		// B is welcomed under its default nick; A under another one, and is then renamed by the server
+		mcb.SendLine(fmt.Sprintf(":srv 001 %s :Welcome", start))
+		mca.SendLine(":srv 001 alpha :Welcome alpha!ident@host")
+		if !a.FgMarker(mca) || !b.FgMarker(mcb) {
+			c.R.Inconcl(fmt.Sprintf("%s: marker not reached", Case("two", idx)))
+			return
+		}
+		if nickOf(a) != "alpha" || nickOf(b) != start {
+			viol(fmt.Sprintf("client A was welcomed as alpha, client B as %q: A reports %q, B reports %q", start, nickOf(a), nickOf(b)))
+		}
+		mca.SendLine(":alpha!ident@host NICK beta")
+		mcb.SendLine(fmt.Sprintf(":%s!ident@host NICK gamma", start))
+		if !a.FgMarker(mca) || !b.FgMarker(mcb) {
+			c.R.Inconcl(fmt.Sprintf("%s: marker not reached", Case("two", idx)))
+			return
+		}
+		if nickOf(a) != "beta" || nickOf(b) != "gamma" {
+			viol(fmt.Sprintf("the servers renamed A to beta and B to gamma: A reports %q, B reports %q", nickOf(a), nickOf(b)))
+		}
+		c.R.Eval(1)
+		c.R.Count("two_client_rounds", 1)
+		go a.Conn.Close()
+		go b.Conn.Close()
+		a.Release()
+		b.Release()
+	}
+}
+
 func runC17DefNick(c *Ctx) {
+	c17TwoClients(c)
 	prefixes := []string{""}
 	alpha := []string{"a", "Z", "9", "_", "}", "\xff"}
 	for l := 1; l <= 3; l++ {
